@@ -1,13 +1,728 @@
 //go:build verif
 
-// placeholder: harness c13 is being written
+// Harness c13: secret key material leaves a handle only via insecure or encrypted paths
+// (property C13).
+//
+// Part 1 (gates): keysets mixing public/remote and secret keys with the secret key at every
+// position, unknown material enum numbers and unknown type URLs injected at proto level. The
+// decisions of keyset.NewHandleWithNoSecrets, keyset.ReadWithNoSecrets (MemReaderWriter, binary
+// and JSON readers), keyset.VerifHasSecrets and Handle.WriteWithNoSecrets are printed next to the
+// lines given to the Lean model (TinkVerif/Model/Keyset.lean: noSecretsHandle, hasSecrets).
+// Part 2 (outputs): for every handle that can be built, String(), KeysetInfo() and everything
+// written by Write / WriteWithAssociatedData (binary, JSON and in-memory writers, several
+// key-encryption AEADs and associated data) is scanned for >= 8-byte substrings of any secret key
+// field; the written EncryptedKeyset must hold only the ciphertext plus type URL / status / id /
+// prefix type per key; reading back with the same key and associated data returns an equal
+// keyset, with another key, other associated data or a damaged ciphertext an error.
 package main
 
-import "github.com/tink-crypto/tink-go/v2/internal/verifharness/hlib"
+import (
+	"bytes"
+	"encoding/json"
+	"fmt"
+	"strings"
+
+	"github.com/tink-crypto/tink-go/v2/aead"
+	"github.com/tink-crypto/tink-go/v2/insecurecleartextkeyset"
+	"github.com/tink-crypto/tink-go/v2/internal/verifharness/hlib"
+	"github.com/tink-crypto/tink-go/v2/internal/verifharness/kslib"
+	"github.com/tink-crypto/tink-go/v2/keyset"
+	"github.com/tink-crypto/tink-go/v2/tink"
+	"google.golang.org/protobuf/encoding/protojson"
+	"google.golang.org/protobuf/encoding/prototext"
+	"google.golang.org/protobuf/proto"
+
+	tinkpb "github.com/tink-crypto/tink-go/v2/proto/tink_go_proto"
+)
+
+type kek struct {
+	name     string
+	a, other tink.AEAD // other: same template, different key
+}
+
+type world struct {
+	o       *hlib.Out
+	rng     *hlib.Rng
+	pool    *kslib.Pool
+	public  []int // pool keys with ASYMMETRIC_PUBLIC / REMOTE material
+	secret  []int // pool keys with SYMMETRIC / ASYMMETRIC_PRIVATE material
+	keks    []kek
+	flip    bool
+	breach  map[string]bool
+	written int
+}
+
+func clonePK(pk *kslib.PoolKey) *tinkpb.KeyData { return proto.Clone(pk.KD).(*tinkpb.KeyData) }
+
+func (w *world) pick(idx []int) *kslib.PoolKey {
+	for try := 0; ; try++ {
+		pk := w.pool.Keys[idx[w.rng.Intn(len(idx))]]
+		// keep the slow-to-parse giants (RSA, ML-DSA) a minority
+		if (pk.Slow || len(pk.KD.Value) > 1000) && try < 3 && !w.rng.Chance(30) {
+			continue
+		}
+		return pk
+	}
+}
+
+type gen struct {
+	ks    *tinkpb.Keyset
+	label []string
+}
+
+func (w *world) newID(ks *tinkpb.Keyset) uint32 {
+	for {
+		id := w.rng.KeyID()
+		dup := false
+		for _, k := range ks.Key {
+			if k.KeyId == id {
+				dup = true
+			}
+		}
+		if !dup {
+			return id
+		}
+	}
+}
+
+func (w *world) entry(ks *tinkpb.Keyset, pk *kslib.PoolKey) *tinkpb.Keyset_Key {
+	st := tinkpb.KeyStatusType_ENABLED
+	switch r := w.rng.Intn(100); {
+	case r < 12:
+		st = tinkpb.KeyStatusType_DISABLED
+	case r < 20:
+		st = tinkpb.KeyStatusType_DESTROYED
+	}
+	return &tinkpb.Keyset_Key{KeyData: clonePK(pk), Status: st, KeyId: w.newID(ks), OutputPrefixType: pk.Prefix}
+}
+
+// finish makes the keyset structurally valid (an ENABLED primary), so that the secrecy gate is
+// what decides; occasionally it is left without a valid primary.
+func (w *world) finish(g *gen) {
+	ks := g.ks
+	if len(ks.Key) == 0 {
+		return
+	}
+	if w.rng.Chance(4) {
+		ks.PrimaryKeyId = w.newID(ks)
+		g.label = append(g.label, "no-primary")
+		return
+	}
+	k := ks.Key[w.rng.Intn(len(ks.Key))]
+	k.Status = tinkpb.KeyStatusType_ENABLED
+	ks.PrimaryKeyId = k.KeyId
+}
+
+var unknownMaterial = []int32{5, 6, 7, 100, 1<<31 - 1}
+
+func expectSecret(ks *tinkpb.Keyset) bool {
+	for _, k := range ks.GetKey() {
+		switch int32(k.GetKeyData().GetKeyMaterialType()) {
+		case 0, 1, 2:
+			return true
+		}
+	}
+	return false
+}
+
+// ---------- part 1: the gates ----------
+
+func (w *world) gate(g *gen) {
+	o := w.o
+	ks := g.ks
+	o.Case()
+	o.Count("keysets")
+	for _, l := range g.label {
+		o.Count("shape/" + l)
+	}
+	o.Count(fmt.Sprintf("nkeys/%d", len(ks.Key)))
+	ctx := func() string { return fmt.Sprintf("shape=%v keyset=%s", g.label, kslib.Hex(ks)) }
+	guard := func(name string, f func()) bool {
+		if p := hlib.Recover(f); p != "" {
+			o.Violate("panic in %s: %s; %s", name, p, ctx())
+			return false
+		}
+		return true
+	}
+	var pans []string
+	arg := fmt.Sprintf("%d %s", ks.GetPrimaryKeyId(), kslib.KeysTok(ks, &pans))
+	for _, p := range pans {
+		o.Violate("panic in ParseKey: %s; %s", p, ctx())
+	}
+	nt := len(ks.Key) >= 1
+
+	// hasSecrets
+	var hs bool
+	guard("hasSecrets", func() { hs = keyset.VerifHasSecrets(kslib.Clone(ks)) })
+	o.Emit("K hassecrets "+arg, hlib.B01(hs), nt)
+	if hs != expectSecret(ks) {
+		o.Violate("hasSecrets=%v but the keyset %s a key with UNKNOWN/SYMMETRIC/ASYMMETRIC_PRIVATE material; %s", hs,
+			map[bool]string{true: "contains", false: "does not contain"}[expectSecret(ks)], ctx())
+	}
+	if hs {
+		o.Count("has-secrets")
+	} else {
+		o.Count("no-secrets")
+	}
+
+	// NewHandleWithNoSecrets and the three ReadWithNoSecrets readers
+	var nh *keyset.Handle
+	var nerr error
+	guard("NewHandleWithNoSecrets", func() { nh, nerr = keyset.NewHandleWithNoSecrets(kslib.Clone(ks)) })
+	nres := kslib.HandleRes(nh, nerr)
+	o.Emit("K nosecrets "+arg, nres, nt)
+	if nerr == nil && expectSecret(ks) {
+		o.Count("GATE-BREACH")
+		o.Violate("NewHandleWithNoSecrets accepted a keyset with secret material; %s", ctx())
+	}
+	if nerr == nil {
+		o.Count("nosecrets-accepted")
+		// whatever the labels said: what the handle now holds must not be secret material
+		nm := insecurecleartextkeyset.KeysetMaterial(nh)
+		for i, k := range nm.GetKey() {
+			switch k.GetKeyData().GetKeyMaterialType() {
+			case tinkpb.KeyData_ASYMMETRIC_PUBLIC, tinkpb.KeyData_REMOTE:
+				continue
+			}
+			if int32(k.GetKeyData().GetKeyMaterialType()) > 4 {
+				continue // undefined numbers: not secret by the code's (and the model's) definition
+			}
+			t := kslib.TypeOfURL(k.GetKeyData().GetTypeUrl())
+			o.Count("GATE-BREACH/NewHandleWithNoSecrets/" + t)
+			if !w.breach[t] {
+				w.breach[t] = true
+				o.Violate("NewHandleWithNoSecrets returned a handle holding secret key material: key %d (%s) is labelled KeyMaterialType %d in the input and the parser does not check it; the handle serializes it as %v; %s",
+					i, t, int32(ks.Key[i].GetKeyData().GetKeyMaterialType()), k.GetKeyData().GetKeyMaterialType(), ctx())
+			}
+		}
+	} else {
+		o.Count("nosecrets-rejected")
+	}
+	bin, merr := proto.Marshal(ks)
+	w.flip = !w.flip
+	js, jerr := kslib.JSONOf(ks, w.flip)
+	readers := []struct {
+		name string
+		mk   func() keyset.Reader
+	}{{"MemReaderWriter", func() keyset.Reader { return &keyset.MemReaderWriter{Keyset: kslib.Clone(ks)} }}}
+	if merr == nil {
+		readers = append(readers, struct {
+			name string
+			mk   func() keyset.Reader
+		}{"BinaryReader", func() keyset.Reader { return keyset.NewBinaryReader(bytes.NewReader(bin)) }})
+	}
+	if jerr == nil {
+		readers = append(readers, struct {
+			name string
+			mk   func() keyset.Reader
+		}{"JSONReader", func() keyset.Reader { return keyset.NewJSONReader(bytes.NewReader(js)) }})
+	}
+	for _, r := range readers {
+		var rh *keyset.Handle
+		var rerr error
+		if !guard("ReadWithNoSecrets("+r.name+")", func() { rh, rerr = keyset.ReadWithNoSecrets(r.mk()) }) {
+			continue
+		}
+		o.Count("ReadWithNoSecrets/" + r.name)
+		if got := kslib.HandleRes(rh, rerr); got != nres {
+			o.Violate("ReadWithNoSecrets(%s) decides %s, NewHandleWithNoSecrets decides %s; %s", r.name, got, nres, ctx())
+		}
+	}
+
+	// the cleartext handle (built through the insecure API) and its WriteWithNoSecrets gate
+	h, herr, p := kslib.ReadMem(ks)
+	if p != "" {
+		o.Violate("panic in insecurecleartextkeyset.Read: %s; %s", p, ctx())
+		return
+	}
+	o.Emit("K handle "+arg, kslib.HandleRes(h, herr), nt)
+	if herr != nil {
+		o.Count("cleartext-rejected")
+		return
+	}
+	o.Count("handles")
+	if m := kslib.WellFormed(h); m != "" {
+		o.Violate("accepted handle is not well-formed: %s; %s", m, ctx())
+	}
+	mat := insecurecleartextkeyset.KeysetMaterial(h)
+	if !proto.Equal(mat, ks) {
+		// parsing and re-serializing may normalise a key (e.g. its material type label)
+		o.Count("material-differs-from-input")
+		for i, k := range mat.GetKey() {
+			if !proto.Equal(k, ks.Key[i]) {
+				o.Count(fmt.Sprintf("material-differs-from-input/%s/material %d->%d", kslib.TypeOfURL(k.GetKeyData().GetTypeUrl()),
+					int32(ks.Key[i].GetKeyData().GetKeyMaterialType()), int32(k.GetKeyData().GetKeyMaterialType())))
+			}
+		}
+	}
+	marg := fmt.Sprintf("%d %s", mat.GetPrimaryKeyId(), kslib.KeysTok(mat, nil))
+	writers := []string{"MemReaderWriter", "BinaryWriter", "JSONWriter"}
+	for _, wn := range writers {
+		var buf bytes.Buffer
+		mem := &keyset.MemReaderWriter{}
+		var wr keyset.Writer
+		switch wn {
+		case "MemReaderWriter":
+			wr = mem
+		case "BinaryWriter":
+			wr = keyset.NewBinaryWriter(&buf)
+		default:
+			wr = keyset.NewJSONWriter(&buf)
+		}
+		var werr error
+		if !guard("WriteWithNoSecrets("+wn+")", func() { werr = h.WriteWithNoSecrets(wr) }) {
+			continue
+		}
+		// the write gate against the model's hasSecrets on the handle's own keyset
+		o.Emit("K hassecrets "+marg, hlib.B01(werr != nil), true)
+		o.Count("WriteWithNoSecrets/" + wn)
+		if (werr != nil) != expectSecret(mat) {
+			o.Count("GATE-BREACH")
+			o.Violate("WriteWithNoSecrets(%s) err=%v but secret material present=%v; %s", wn, werr, expectSecret(mat), ctx())
+		}
+		if werr != nil {
+			if buf.Len() != 0 || mem.Keyset != nil {
+				o.Violate("WriteWithNoSecrets(%s) failed but wrote %d bytes; %s", wn, buf.Len(), ctx())
+			}
+			continue
+		}
+		o.Count("WriteWithNoSecrets-ok/" + wn)
+		got := &tinkpb.Keyset{}
+		var perr error
+		switch wn {
+		case "MemReaderWriter":
+			got = mem.Keyset
+		case "BinaryWriter":
+			perr = proto.Unmarshal(buf.Bytes(), got)
+		default:
+			perr = protojson.Unmarshal(buf.Bytes(), got)
+		}
+		if perr != nil || !proto.Equal(got, mat) {
+			o.Violate("WriteWithNoSecrets(%s) wrote something else than the keyset (%v); %s", wn, perr, ctx())
+		}
+	}
+	w.outputs(h, mat, g)
+}
+
+// ---------- part 2: outputs ----------
+
+type scanner struct{ windows map[string]int }
+
+func newScanner(ks *tinkpb.Keyset) *scanner {
+	s := &scanner{windows: map[string]int{}}
+	for i, k := range ks.GetKey() {
+		for _, f := range kslib.SecretFields(k.GetKeyData()) {
+			for j := 0; j+8 <= len(f); j++ {
+				s.windows[string(f[j:j+8])] = i
+			}
+		}
+	}
+	return s
+}
+
+// find returns the index of a key one of whose secret 8-byte windows occurs in b (-1 if none).
+func (s *scanner) find(b []byte) int {
+	if len(s.windows) == 0 {
+		return -1
+	}
+	for j := 0; j+8 <= len(b); j++ {
+		if i, ok := s.windows[string(b[j:j+8])]; ok {
+			return i
+		}
+	}
+	return -1
+}
+
+func expectedInfo(ks *tinkpb.Keyset) *tinkpb.KeysetInfo {
+	info := &tinkpb.KeysetInfo{PrimaryKeyId: ks.GetPrimaryKeyId()}
+	for _, k := range ks.GetKey() {
+		info.KeyInfo = append(info.KeyInfo, &tinkpb.KeysetInfo_KeyInfo{TypeUrl: k.GetKeyData().GetTypeUrl(), Status: k.GetStatus(),
+			KeyId: k.GetKeyId(), OutputPrefixType: k.GetOutputPrefixType()})
+	}
+	return info
+}
+
+func (w *world) outputs(h *keyset.Handle, mat *tinkpb.Keyset, g *gen) {
+	o := w.o
+	ctx := func() string { return fmt.Sprintf("shape=%v keyset=%s", g.label, kslib.Hex(mat)) }
+	sc := newScanner(mat)
+	if len(sc.windows) > 0 {
+		o.Count("handles-with-secret-fields")
+	}
+	leak := func(where string, b []byte) {
+		o.Count("scanned/" + strings.SplitN(strings.SplitN(where, ",", 2)[0], " ", 2)[0])
+		if i := sc.find(b); i >= 0 {
+			o.Count("LEAK")
+			o.Violate("%s contains >= 8 bytes of the secret material of key %d (%s); %s", where, i, mat.Key[i].GetKeyData().GetTypeUrl(), ctx())
+		}
+	}
+	guard := func(name string, f func()) bool {
+		if p := hlib.Recover(f); p != "" {
+			o.Violate("panic in %s: %s; %s", name, p, ctx())
+			return false
+		}
+		return true
+	}
+	want := expectedInfo(mat)
+	var str string
+	var info *tinkpb.KeysetInfo
+	if guard("String()", func() { str = h.String() }) {
+		leak("String()", []byte(str))
+		parsed := &tinkpb.KeysetInfo{}
+		if err := prototext.Unmarshal([]byte(str), parsed); err != nil || !proto.Equal(parsed, want) {
+			o.Violate("String() is not the text form of the metadata-only KeysetInfo (%v): %q; %s", err, str, ctx())
+		}
+	}
+	if guard("KeysetInfo()", func() { info = h.KeysetInfo() }) {
+		b, _ := proto.Marshal(info)
+		leak("KeysetInfo()", b)
+		if !proto.Equal(info, want) || len(info.ProtoReflect().GetUnknown()) != 0 {
+			o.Violate("KeysetInfo() holds something else than type URL / status / id / prefix type per key; %s", ctx())
+		}
+	}
+
+	// encrypted writers: a couple of (key-encryption AEAD, associated data) pairs per handle
+	for rep := 0; rep < 2; rep++ {
+		k := w.keks[w.rng.Intn(len(w.keks))]
+		var ad []byte
+		switch w.rng.Intn(5) {
+		case 0:
+			ad = nil
+		case 1:
+			ad = []byte{}
+		case 2:
+			ad = []byte("keyset associated data")
+		default:
+			ad = w.rng.Bytes(1 + w.rng.Intn(40))
+		}
+		useWrite := len(ad) == 0 && w.rng.Bool() // h.Write == WriteWithAssociatedData(…, []byte{})
+		for _, wn := range []string{"BinaryWriter", "JSONWriter", "MemReaderWriter"} {
+			var buf bytes.Buffer
+			mem := &keyset.MemReaderWriter{}
+			var wr keyset.Writer
+			switch wn {
+			case "MemReaderWriter":
+				wr = mem
+			case "BinaryWriter":
+				wr = keyset.NewBinaryWriter(&buf)
+			default:
+				wr = keyset.NewJSONWriter(&buf)
+			}
+			var werr error
+			api := "WriteWithAssociatedData"
+			if useWrite {
+				api = "Write"
+			}
+			if !guard(api+"("+wn+")", func() {
+				if useWrite {
+					werr = h.Write(wr, k.a)
+				} else {
+					werr = h.WriteWithAssociatedData(wr, k.a, ad)
+				}
+			}) {
+				continue
+			}
+			if werr != nil {
+				o.Violate("%s(%s, %s) failed: %v; %s", api, wn, k.name, werr, ctx())
+				continue
+			}
+			w.written++
+			o.Count("encrypted-writes/" + wn)
+			o.Count("encrypted-writes-kek/" + k.name)
+			o.Count(fmt.Sprintf("encrypted-writes-ad/%s", map[bool]string{true: "empty", false: "non-empty"}[len(ad) == 0]))
+			where := fmt.Sprintf("%s(%s,%s,ad=%x)", api, wn, k.name, ad)
+
+			// 1. the written form: only ciphertext (+ metadata for JSON / memory)
+			enc := &tinkpb.EncryptedKeyset{}
+			switch wn {
+			case "MemReaderWriter":
+				enc = mem.EncryptedKeyset
+				if enc == nil {
+					o.Violate("%s wrote nothing; %s", where, ctx())
+					continue
+				}
+				b, _ := proto.Marshal(enc)
+				leak(where+" message", b)
+			case "BinaryWriter":
+				leak(where+" bytes", buf.Bytes())
+				if err := proto.Unmarshal(buf.Bytes(), enc); err != nil {
+					o.Violate("%s output does not parse as EncryptedKeyset: %v; %s", where, err, ctx())
+					continue
+				}
+				if enc.KeysetInfo != nil {
+					o.Violate("%s: the binary form carries a KeysetInfo; %s", where, ctx())
+				}
+				canon, _ := proto.Marshal(&tinkpb.EncryptedKeyset{EncryptedKeyset: enc.EncryptedKeyset})
+				if !bytes.Equal(canon, buf.Bytes()) {
+					o.Violate("%s: the binary form holds more than the ciphertext field; %s", where, ctx())
+				}
+			default:
+				leak(where+" text", buf.Bytes())
+				if err := protojson.Unmarshal(buf.Bytes(), enc); err != nil {
+					o.Violate("%s output does not parse as EncryptedKeyset JSON: %v; %s", where, err, ctx())
+					continue
+				}
+				b, _ := proto.Marshal(enc)
+				leak(where+" decoded", b)
+				var top map[string]json.RawMessage
+				if err := json.Unmarshal(buf.Bytes(), &top); err != nil {
+					o.Violate("%s output is not a JSON object: %v; %s", where, err, ctx())
+				}
+				for f := range top {
+					if f != "encryptedKeyset" && f != "keysetInfo" {
+						o.Violate("%s: unexpected JSON field %q; %s", where, f, ctx())
+					}
+				}
+			}
+			if len(enc.ProtoReflect().GetUnknown()) != 0 || (enc.KeysetInfo != nil && len(enc.KeysetInfo.ProtoReflect().GetUnknown()) != 0) {
+				o.Violate("%s: unknown fields in the written EncryptedKeyset; %s", where, ctx())
+			}
+			if wn != "BinaryWriter" && !proto.Equal(enc.KeysetInfo, want) {
+				o.Violate("%s: KeysetInfo is not exactly type URL / status / id / prefix type per key; %s", where, ctx())
+			}
+			for _, ki := range enc.GetKeysetInfo().GetKeyInfo() {
+				if len(ki.ProtoReflect().GetUnknown()) != 0 {
+					o.Violate("%s: unknown fields in a KeyInfo; %s", where, ctx())
+				}
+			}
+			// the ciphertext is the encryption of exactly the serialized keyset
+			pt, derr := k.a.Decrypt(enc.EncryptedKeyset, ad)
+			inner := &tinkpb.Keyset{}
+			if derr != nil || proto.Unmarshal(pt, inner) != nil || !proto.Equal(inner, mat) {
+				o.Violate("%s: the ciphertext is not the encrypted keyset under the given key and associated data (%v); %s", where, derr, ctx())
+				continue
+			}
+
+			// 2. reading back
+			mkReader := func(e *tinkpb.EncryptedKeyset) keyset.Reader {
+				switch wn {
+				case "MemReaderWriter":
+					return &keyset.MemReaderWriter{EncryptedKeyset: e}
+				case "BinaryWriter":
+					b, _ := proto.Marshal(e)
+					return keyset.NewBinaryReader(bytes.NewReader(b))
+				default:
+					b, _ := protojson.Marshal(e)
+					return keyset.NewJSONReader(bytes.NewReader(b))
+				}
+			}
+			original := func() keyset.Reader {
+				switch wn {
+				case "MemReaderWriter":
+					return &keyset.MemReaderWriter{EncryptedKeyset: enc}
+				case "BinaryWriter":
+					return keyset.NewBinaryReader(bytes.NewReader(buf.Bytes()))
+				default:
+					return keyset.NewJSONReader(bytes.NewReader(buf.Bytes()))
+				}
+			}
+			read := func(r keyset.Reader, a tink.AEAD, ad []byte, viaRead bool) (h2 *keyset.Handle, err error) {
+				if p := hlib.Recover(func() {
+					if viaRead {
+						h2, err = keyset.Read(r, a)
+					} else {
+						h2, err = keyset.ReadWithAssociatedData(r, a, ad)
+					}
+				}); p != "" {
+					o.Violate("panic while reading back %s: %s; %s", where, p, ctx())
+					err = fmt.Errorf("panic")
+				}
+				return
+			}
+			h2, err := read(original(), k.a, ad, useWrite)
+			if err != nil {
+				o.Violate("%s: reading back with the same key and associated data fails: %v; %s", where, err, ctx())
+			} else if !proto.Equal(insecurecleartextkeyset.KeysetMaterial(h2), mat) {
+				o.Violate("%s: reading back returns a different keyset; %s", where, ctx())
+			} else {
+				o.Count("read-back-equal")
+			}
+			neg := func(kind string, r keyset.Reader, a tink.AEAD, ad2 []byte) {
+				o.Count("negative-reads/" + kind)
+				if _, err := read(r, a, ad2, false); err == nil {
+					o.Count("WRONG-ACCEPT")
+					o.Violate("%s: read back succeeds with %s; %s", where, kind, ctx())
+				}
+			}
+			neg("other key-encryption key", original(), k.other, ad)
+			ok2 := w.keks[(w.rng.Intn(len(w.keks)-1)+1+indexOf(w.keks, k.name))%len(w.keks)]
+			neg("key-encryption key of another type", original(), ok2.a, ad)
+			neg("extended associated data", original(), k.a, append(append([]byte{}, ad...), 'x'))
+			if len(ad) > 0 {
+				neg("empty associated data", original(), k.a, nil)
+				neg("truncated associated data", original(), k.a, ad[:len(ad)-1])
+				flipped := append([]byte{}, ad...)
+				flipped[w.rng.Intn(len(flipped))] ^= 1 << uint(w.rng.Intn(8))
+				neg("bit-flipped associated data", original(), k.a, flipped)
+			} else {
+				neg("non-empty associated data", original(), k.a, []byte("ad"))
+			}
+			ct := enc.EncryptedKeyset
+			dmg := func(c []byte) *tinkpb.EncryptedKeyset {
+				return &tinkpb.EncryptedKeyset{EncryptedKeyset: c, KeysetInfo: enc.KeysetInfo}
+			}
+			neg("ciphertext without its last byte", mkReader(dmg(ct[:len(ct)-1])), k.a, ad)
+			neg("ciphertext without its first byte", mkReader(dmg(ct[1:])), k.a, ad)
+			neg("ciphertext cut at a random point", mkReader(dmg(ct[:w.rng.Intn(len(ct))])), k.a, ad)
+			neg("empty ciphertext", mkReader(dmg(nil)), k.a, ad)
+			fl := append([]byte{}, ct...)
+			fl[w.rng.Intn(len(fl))] ^= 1 << uint(w.rng.Intn(8))
+			neg("bit-flipped ciphertext", mkReader(dmg(fl)), k.a, ad)
+			neg("extended ciphertext", mkReader(dmg(append(append([]byte{}, ct...), 0))), k.a, ad)
+		}
+	}
+}
+
+func indexOf(ks []kek, name string) int {
+	for i, k := range ks {
+		if k.name == name {
+			return i
+		}
+	}
+	return 0
+}
+
+// ---------- generation ----------
+
+func (w *world) run() {
+	o := w.o
+	// (a) one public/remote keyset per size with one secret key at each position (and none)
+	for rep, reps := 0, hlib.N(14, 280); rep < reps; rep++ {
+		n := 1 + w.rng.Intn(6)
+		base := &tinkpb.Keyset{}
+		for i := 0; i < n; i++ {
+			base.Key = append(base.Key, w.entry(base, w.pick(w.public)))
+		}
+		for pos := -1; pos < n; pos++ {
+			g := &gen{ks: kslib.Clone(base), label: []string{"public-only"}}
+			if pos >= 0 {
+				sk := w.pick(w.secret)
+				g.ks.Key[pos].KeyData = clonePK(sk)
+				g.ks.Key[pos].OutputPrefixType = sk.Prefix
+				g.label = []string{"one-secret-key", fmt.Sprintf("secret-at-position/%d-of-%d", pos, n), "secret-type/" + sk.Type}
+			}
+			w.finish(g)
+			w.gate(g)
+		}
+	}
+	// (b) every pool key alone and as the last of three
+	for _, pk := range w.pool.Keys {
+		for _, n := range []int{1, 3} {
+			g := &gen{ks: &tinkpb.Keyset{}, label: []string{"every-key-type", "key-type/" + pk.Type}}
+			for i := 0; i < n-1; i++ {
+				g.ks.Key = append(g.ks.Key, w.entry(g.ks, w.pick(w.public)))
+			}
+			g.ks.Key = append(g.ks.Key, w.entry(g.ks, pk))
+			w.finish(g)
+			w.gate(g)
+		}
+	}
+	// (c) random mixes, material type numbers set at proto level, unknown type URLs
+	for i, n := 0, hlib.N(900, 18000); i < n; i++ {
+		g := &gen{ks: &tinkpb.Keyset{}}
+		nk := 1 + w.rng.Intn(6)
+		mode := w.rng.Intn(100)
+		for j := 0; j < nk; j++ {
+			switch {
+			case mode < 35: // mostly public, some secret
+				if w.rng.Chance(25) {
+					g.ks.Key = append(g.ks.Key, w.entry(g.ks, w.pick(w.secret)))
+				} else {
+					g.ks.Key = append(g.ks.Key, w.entry(g.ks, w.pick(w.public)))
+				}
+			case mode < 50: // all secret
+				g.ks.Key = append(g.ks.Key, w.entry(g.ks, w.pick(w.secret)))
+			default:
+				g.ks.Key = append(g.ks.Key, w.entry(g.ks, w.pick(w.public)))
+			}
+		}
+		switch {
+		case mode < 35:
+			g.label = append(g.label, "mixed")
+		case mode < 50:
+			g.label = append(g.label, "all-secret")
+		default:
+			g.label = append(g.label, "public-then-edited")
+		}
+		if mode >= 50 || w.rng.Chance(30) {
+			// edits at proto level on one or two keys
+			for e, ne := 0, 1+w.rng.Intn(2); e < ne; e++ {
+				t := w.rng.Intn(nk)
+				kd := g.ks.Key[t].KeyData
+				switch w.rng.Intn(6) {
+				case 0, 1: // unknown material number
+					kd.KeyMaterialType = tinkpb.KeyData_KeyMaterialType(unknownMaterial[w.rng.Intn(len(unknownMaterial))])
+					g.label = append(g.label, fmt.Sprintf("material=%d", int32(kd.KeyMaterialType)), fmt.Sprintf("edited-position/%d-of-%d", t, nk))
+				case 2: // any defined material number on whatever key
+					kd.KeyMaterialType = tinkpb.KeyData_KeyMaterialType(w.rng.Intn(5))
+					g.label = append(g.label, fmt.Sprintf("material=%d", int32(kd.KeyMaterialType)), fmt.Sprintf("edited-position/%d-of-%d", t, nk))
+				case 3: // unknown type URL, material as is
+					kd.TypeUrl = []string{"type.googleapis.com/verif.NoSuchKey", "type.googleapis.com/google.crypto.tink.AesEaxKey", "", "x"}[w.rng.Intn(4)]
+					g.label = append(g.label, "unknown-type-url")
+				case 4: // unknown type URL with a chosen material number and secret-looking bytes
+					kd.TypeUrl = "type.googleapis.com/verif.Opaque"
+					kd.Value = w.rng.Bytes(16 + w.rng.Intn(48))
+					kd.KeyMaterialType = tinkpb.KeyData_KeyMaterialType([]int32{0, 1, 2, 3, 4, 5, 6, 1<<31 - 1}[w.rng.Intn(8)])
+					g.ks.Key[t].OutputPrefixType = tinkpb.OutputPrefixType(1 + w.rng.Intn(4))
+					g.label = append(g.label, "unknown-type-url", fmt.Sprintf("material=%d", int32(kd.KeyMaterialType)), fmt.Sprintf("edited-position/%d-of-%d", t, nk))
+				case 5: // a secret key relabelled public / remote, or a public key relabelled secret
+					if w.rng.Bool() {
+						sk := w.pick(w.secret)
+						g.ks.Key[t].KeyData = clonePK(sk)
+						g.ks.Key[t].OutputPrefixType = sk.Prefix
+						g.ks.Key[t].KeyData.KeyMaterialType = tinkpb.KeyData_KeyMaterialType(w.rng.Pick(3, 4, 5, 1<<31-1))
+						g.label = append(g.label, "secret-key-relabelled-nonsecret")
+					} else {
+						g.ks.Key[t].KeyData.KeyMaterialType = tinkpb.KeyData_KeyMaterialType(w.rng.Pick(0, 1, 2))
+						g.label = append(g.label, "public-key-relabelled-secret")
+					}
+				}
+			}
+		}
+		if w.rng.Chance(2) {
+			g.ks.Key = nil
+			g.label = append(g.label, "empty")
+		}
+		w.finish(g)
+		w.gate(g)
+	}
+	_ = o
+}
 
 func main() {
 	o := hlib.Open("c13")
 	defer o.Close()
-	o.Emit("K validate 7 -", "err", true)
-	o.Emit("K validate 8 -", "err", true)
+	w := &world{o: o, rng: hlib.NewRng(*hlib.FlagSeed, "c13"), breach: map[string]bool{}}
+	kslib.InstallDetRand(*hlib.FlagSeed)
+	w.pool = kslib.BuildPool()
+	for _, s := range w.pool.Skipped {
+		o.Count("pool-skipped/" + s)
+	}
+	for i, pk := range w.pool.Keys {
+		if pk.Secret() {
+			w.secret = append(w.secret, i)
+		} else {
+			w.public = append(w.public, i)
+		}
+		o.Count("pool/" + pk.KD.GetKeyMaterialType().String())
+	}
+	for _, t := range []struct {
+		name string
+		kt   *tinkpb.KeyTemplate
+	}{{"AES128GCM", aead.AES128GCMKeyTemplate()}, {"AES256GCM-raw", aead.AES256GCMNoPrefixKeyTemplate()}, {"AES256GCMSIV", aead.AES256GCMSIVKeyTemplate()},
+		{"AES128CTRHMACSHA256", aead.AES128CTRHMACSHA256KeyTemplate()}, {"XChaCha20Poly1305", aead.XChaCha20Poly1305KeyTemplate()},
+		{"XAES256GCM192-raw", aead.XAES256GCM192BitNonceNoPrefixKeyTemplate()}} {
+		var pair [2]tink.AEAD
+		for i := range pair {
+			kh, err := keyset.NewHandle(t.kt)
+			if err != nil {
+				panic(err)
+			}
+			if pair[i], err = aead.New(kh); err != nil {
+				panic(err)
+			}
+		}
+		w.keks = append(w.keks, kek{t.name, pair[0], pair[1]})
+	}
+	w.run()
 }
